@@ -18,14 +18,14 @@ CHECKS = {
     },
     "C18": {
         "level": "exploration",
-        "technique": "transcript equality across RAYON_NUM_THREADS in {1,2,4,16} (separate processes) + shared-instance monitor (2..64 threads, &RLN and FFI *const RLN, results vs sequential twins, observed call-kind overlaps) + fresh-process first-use races + recreate loop; ThreadSanitizer/AddressSanitizer builds in thorough",
-        "text": "Four processes with different rayon pool sizes run the same workload (24 batch updates on a persistent tree, witnesses, proof values, proofs with verdicts, a fixed corpus of valid/tampered/truncated messages) and must produce the same transcript hash; 85 read-only queries of every kind are answered sequentially and then issued at random by 2..64 threads from a start barrier on one shared instance (also through the FFI), every result compared with its sequential twin; fresh processes race the first use of the lazy globals; 60..600 create-write-flush-drop-create cycles on one storage location must open with the model's state (latency and lock retries reported). Thorough repeats the shared-instance and batch workloads under TSan (reports attributed to repository frames only; dependency-internal reports listed) and the FFI variant under ASan.",
+        "technique": "transcript equality across RAYON_NUM_THREADS in {1,2,4,16} (separate processes) + shared-instance monitor (2..64 threads, &RLN and FFI *const RLN, results vs sequential twins, observed call-kind overlaps) + storm of cheap pure calls (2..16 threads over a few related inputs, compared with from-spec reference values, overlap measured) + fresh-process first-use races + recreate loop (also while the previous instance is still alive); ThreadSanitizer/AddressSanitizer builds in thorough",
+        "text": "Four processes with different rayon pool sizes run the same workload (24 batch updates on a persistent tree plus structured batches with mirrored pairs, equal subtrees and default values, witnesses, proof values, proofs with verdicts, a fixed corpus of valid/tampered/truncated messages) and must produce the same transcript hash; 85 read-only queries of every kind are answered sequentially and then issued at random by 2..64 threads from a start barrier on one shared instance (also through the FFI), every result compared with its sequential twin; 1.8 M (quick) / 18 M (thorough) Poseidon / hash-to-field / seeded-keygen calls from 2..16 threads walking over the same eight related inputs are compared with reference values (a race window of nanoseconds needs this call density); fresh processes race the first use of the lazy globals; 60..600 create-write-flush-drop-create cycles on one storage location must open with the model's state (latency and lock retries reported). Thorough repeats the shared-instance and batch workloads under TSan (reports attributed to repository frames only; dependency-internal reports listed) and the FFI variant under ASan.",
         "note": "Schedules are sampled. TSan does not model sled's stand-alone fences: reports whose stacks are entirely inside sled/crossbeam/rayon are suppressed but counted.",
     },
     "C16": {
         "level": "fault_enumeration",
         "technique": "fault enumeration with a cfg(zerokit_verif) fail-after-N storage hook (every put/put_batch/flush of each short history fails once) + reopen monitor against the ideal model + SIGKILL crash points of a writer process + reopen while another process holds the storage lock + real write failures via RLIMIT_FSIZE",
-        "text": "For short generated histories through RLN on persistent trees the harness counts the storage operations of an unarmed run and replays the history once per storage operation with the fault armed there (exhaustive for these histories): the API call hit must return Err, earlier calls keep their results, and after disarm+flush+drop+reopen every leaf, the leaf count and the metadata acknowledged before the failed call must be readable. Longer histories are flushed, dropped and reopened at four points under 6 storage configurations and 4 path styles and must equal the model, which the reopened tree keeps following. A writer process is SIGKILLed 0..120 ms after an acknowledged flush and the recovered state must contain everything acknowledged. Reopen is attempted while another process holds the lock for 10..500 ms. A writer process whose RLIMIT_FSIZE is lowered after its first acknowledged flush makes sled's writes really fail (EFBIG): nothing may panic and everything reported successful and flushed must be readable after reopen. Known finding: reset on a persistent instance.",
+        "text": "For short generated histories through RLN on persistent trees the harness counts the storage operations of an unarmed run and replays the history once per storage operation with the fault armed there (exhaustive for these histories): the API call hit must return Err, earlier calls keep their results, and after disarm+flush+drop+reopen every leaf, the leaf count and the metadata acknowledged before the failed call must be readable. Longer histories are flushed, dropped and reopened at four points under 6 storage configurations and 4 path styles and must equal the model, which the reopened tree keeps following. A writer process is SIGKILLed after an acknowledged flush - two thirds of the kills at a quiescent point right after the acknowledgement, enumerating the kind of update segment the flush closed (mixed, batch-only without growth, single-leaf-only, metadata-only, batch-then-delete) x depth x configuration, the rest in flight 0..120 ms later - and the recovered state must contain everything acknowledged. Reopen is attempted while another process holds the lock for 10..500 ms. A writer process whose RLIMIT_FSIZE is lowered after its first acknowledged flush makes sled's writes really fail (EFBIG): nothing may panic and everything reported successful and flushed must be readable after reopen. Known finding: reset on a persistent instance.",
         "note": "Trusted: the hook returns the adapter's own error value at the entry of put/put_batch/close (same path as a failing sled call); the effect of the failed/in-flight operation is excluded; SIGKILL is a process crash, not a power failure.",
     },
     "C17": {
@@ -49,7 +49,7 @@ CHECKS = {
     "C12": {
         "level": "exploration",
         "technique": "outcome classifier {Ok+verifies, Ok+fails, Err, panic} over hostile proving requests, with rln.wasm partitioning well-formed requests into satisfiable/unsatisfiable",
-        "text": "generate_rln_proof, generate_rln_proof_with_witness and prove are driven with message ids at/above the limit, limits outside the circuit window, positions outside the tree, requests truncated at every length, oversized declared lengths and vector counts, witnesses with wrong path lengths / non-binary directions / trailing bytes, and random bytes; a returned message must verify (raw, carried root, same tree for members), unsatisfiable requests must be errors, and no call may panic. Known finding: limits above 2^16 outside the circuit window.",
+        "text": "generate_rln_proof, generate_rln_proof_with_witness and prove (and, for malformed Merkle paths, the typed route: a witness decoded from an independently built JSON form handed to protocol::generate_proof / proof_values_from_witness) are driven with message ids at/above the limit, limits outside the circuit window, positions outside the tree, requests truncated at every length, oversized declared lengths and vector counts, witnesses with wrong path lengths / non-binary directions / trailing bytes, and random bytes; a returned message must verify (raw, carried root, same tree for members), unsatisfiable requests must be errors, and no call may panic. Known finding: limits above 2^16 outside the circuit window.",
         "note": "Trusted: rln.wasm as the satisfiability oracle. Err on a satisfiable request is not a violation here (C01 decides completeness).",
     },
     "C13": {
